@@ -133,7 +133,8 @@ class GrainGrowthModel(GenericModel):
         self._growthRate = np.zeros(len(self.pbm.PSDbounds))
         self.pbm.reset()
         self.pbm.PSD, self.pbm.PSDbounds = np.array(self._oldPSD), np.array(self._oldPSDbounds)
-        self.dissolutionIndex = 0
+        #Dissolution index of the restored distribution (as LoadDistribution does), not 0
+        self.dissolutionIndex = self.pbm.getDissolutionIndex(self.maxDissolution, 0)
 
     def Rcr(self, x):
         '''
